@@ -136,6 +136,10 @@ pub mod p256 {
         pub uninterp spec fn der(s: Signature) -> Seq<u8>;
         pub uninterp spec fn ecdsa_ok(k: VerifyingKey, msg: Seq<u8>, s: Signature) -> bool;
         pub uninterp spec fn sign_spec(k: SigningKey, msg: Seq<u8>) -> Signature;
+        // the canonical one of the two ECDSA signatures (r, s) / (r, n - s) that verify together: s <= n / 2.
+        // p256's `verify` does NOT require it (NistP256 has NORMALIZE_S = false; `Signature::normalize_s` exists
+        // for callers that want it) - so nothing below lets a caller conclude low_s from a successful `verify`
+        pub uninterp spec fn low_s(s: Signature) -> bool;
 
         pub broadcast axiom fn ax_vk_bytes_len(k: VerifyingKey) ensures #[trigger] vk_bytes(k).len() == 33;
         pub broadcast axiom fn ax_vk_bytes_inj(a: VerifyingKey, b: VerifyingKey)
@@ -163,6 +167,9 @@ pub mod p256 {
             { unimplemented!() }
             #[verifier::external_body]
             pub fn to_der(&self) -> (r: DerSignature) ensures r@ == der(*self) { unimplemented!() }
+            // ecdsa::Signature::normalize_s: None when s is already in the lower half
+            #[verifier::external_body]
+            pub fn normalize_s(&self) -> (r: Option<Signature>) ensures r is None <==> low_s(*self) { unimplemented!() }
         }
         #[verifier::external_body]
         pub struct FieldBytes { _p: [u8; 32] }
